@@ -67,15 +67,27 @@ static inline str str_concat(sv a, sv b) {
 #endif
   r.data[n] = 0; r.len = n; return r; }
 /* std::transform over characters with a capture-less function (in place or into another buffer of the same length) */
-static inline char *shim_transform_char(char *b, char *e, char *o, char (*f)(char)) {
+static inline char *shim_transform_char2(char *b, char *e, char *o, char (*f)(char), char (*fr)(char *)) {
   SHIM_ASSERT(__CPROVER_same_object(b, e) && b <= e, "shim.transform.range_valid");
   unsigned long n = (unsigned long)(e - b); unsigned long i = 0;
   while (i < n)
     __CPROVER_assigns(i, __CPROVER_object_whole(o))
     __CPROVER_loop_invariant(i <= n)
     __CPROVER_decreases(n - i)
-  { o[i] = f(b[i]); i++; }
+  { o[i] = f ? f(b[i]) : fr(&b[i]); i++; }
   return o + n; }
+static inline char *shim_transform_char(char *b, char *e, char *o, char (*f)(char)) { return shim_transform_char2(b, e, o, f, (char (*)(char *))0); }
+/* in-place std::transform over a whole std::string.  The characters are mapped one by one (loop contract).  Content class of
+   the result: for tag 0 (std::tolower on every character) ids are read as (case-insensitive class << 8 | case variant) and
+   the lower-cased string is variant 0 of the same class: a function of the old id, idempotent, equal for two names that
+   differ only in case.  Any assignment of contents to names has a consistent assignment of such ids, and the harness leaves
+   the ids unconstrained, so nothing is assumed.  Other mappings give an unknown class (id 0).  cbmc's
+   __CPROVER_uninterpreted_ functions are not functional after goto-instrument --dfcc (measured), hence the concrete coding. */
+#define LC_CLASS(id) ((id) & ~(unsigned long)0xFF)
+static inline char *str_transform_inplace(str *s, char (*f)(char), char (*fr)(char *), unsigned long tag) {
+  char *e = shim_transform_char2(s->data, s->data + s->len, s->data, f, fr);
+  s->id = (tag == 0) ? LC_CLASS(s->id) : 0;
+  return e; }
 /* std::to_string / number formatting: the digits are opaque (libc), the length is between 1 and 330 bytes */
 static inline str str_from_num(double v) {
   unsigned long n = nondet_ulong(); __CPROVER_assume(n >= 1 && n <= 330);
